@@ -56,6 +56,14 @@ class DownFault(Exception):
     pass
 
 
+class InitFaultB(BaseException):
+    """every second injected fault is a non-`Exception` exception (KeyboardInterrupt-like)"""
+
+
+class DownFaultB(BaseException):
+    pass
+
+
 class Stub:
     """stands in for the channel: never touched by Context / Machine life-cycle code"""
 
@@ -90,9 +98,9 @@ class Harness:
             return "b"
         if Skipped is not None and isinstance(e, Skipped):
             return "s"
-        if isinstance(e, InitFault):
+        if isinstance(e, (InitFault, InitFaultB)):
             return "fi"
-        if isinstance(e, DownFault):
+        if isinstance(e, (DownFault, DownFaultB)):
             return "fd"
         if isinstance(e, tbot.error.ContextError):
             return "ctx"
@@ -145,7 +153,7 @@ class Harness:
                     if not self.failing_init:
                         H.n_down += 1
                         if H.n_down in H.fd:
-                            e = DownFault(f"teardown {H.n_down}")
+                            e = (DownFault if H.n_down % 2 else DownFaultB)(f"teardown {H.n_down}")
                             H.exc("x", e)
                             raise e
 
@@ -156,7 +164,7 @@ class Harness:
             def init(self):
                 if H.n_init in H.fi:
                     self.failing_init = True
-                    e = InitFault(f"init {H.n_init}")
+                    e = (InitFault if H.n_init % 2 else InitFaultB)(f"init {H.n_init}")
                     H.exc("x", e)
                     raise e
 
